@@ -29,7 +29,7 @@ claimed = {
 "C12": dict(engine="kani+mirsym", cat="model_checking", ref="§4 C12", tech="solver-decided panic checks: Kani/CBMC's generated overflow/bounds/unwrap checks and mirsym's MIR assert/unwrap obligations over symbolic inputs",
   text="Panic-freedom obligations (arithmetic overflow, slice/index bounds, unwrap, explicit panics, MIR assert terminators) of every encoded unit of the other claimed properties, decided for all inputs within those units' bounds. Partial by construction: it covers the helpers, handles and lexical path functions listed in evidence, not every Memfs method.",
   note="Only the functions listed in evidence.functions_encoded; Memfs methods on arbitrary strings and the byte-offset slicing path helpers are outside the claim (text/hash-map barrier)."),
-"C13": dict(engine="mirsym", cat="proof", ref="§4 C13", tech="symbolic execution of the wrappers' MIR with callees as uninterpreted functions; equality obligations discharged by z3 and cvc5",
+"C13": dict(engine="mirsym+kani", cat="proof", ref="§4 C13", tech="symbolic execution of the wrappers' MIR with callees as uninterpreted functions; equality obligations discharged by z3 and cvc5",
   text="Every function of `impl VirtualFileSystem for Vfs`, `impl VirtualFileSystem for Stdfs` and `impl Entry for VfsEntry` is executed from its real MIR with both enum arms; the wrapped methods are uninterpreted functions threaded with a world token, so unsat of `result != f_same_name(world, inner, params in order)` and of `world' != w_same_name(...)` shows the wrapper returns and does exactly what the wrapped call does under every possible behaviour of the backends. Loop-free, so no bound. Counterexamples are replayed by a native differential fixture test over all methods.",
   note=MIR_TB + "`<VfsEntry as Entry>::upcast` applied after `follow` is modelled as the identity. Says nothing about the backends themselves, only that the wrappers add and lose nothing. Trait default methods (is_exec, is_symlink_dir, ...) are generic over Self and not part of the wrapper impls."),
 "C14": dict(engine="mirsym", cat="model_checking", ref="§4 C14", tech="bounded symbolic execution of clean()'s MIR over symbolic component sequences with std path types as validated sequence models; z3 + cvc5",
@@ -38,6 +38,12 @@ claimed = {
 "C16": dict(engine="mirsym", cat="model_checking", ref="§4 C16", tech="bounded symbolic execution of relative()'s MIR over pairs of symbolic clean absolute paths; z3 + cvc5",
   text="The real MIR of sys::relative is executed over all ordered pairs of clean absolute paths with <=4 (quick) / <=7 (thorough) components and symbolic names; obligations: clean(base.join(result)) == path, and for path != base the result is '..' x (components of base below the common prefix) followed only by normal components; no panic.",
   note=MIR_TB + "Same sequence models of std path types as C14 (validated natively). Names range over a 3-element alphabet (enough to realise every equality pattern the code can observe through Component::eq)."),
+"C11": dict(engine="mirsym+kani", cat="model_checking", ref="§4 C11", tech="bounded symbolic execution of chmod::mode's MIR over symbolic char strings (z3 + cvc5) plus Kani/CBMC on the entry-level mode/owner kernels",
+  text="(1) The real MIR of chmod::mode and _pop is executed over every string of <=5 (quick) / <=9 (thorough) arbitrary Unicode scalars and over class-constrained templates of all single and double clauses, for every entry kind, every 16-bit mode and every octal argument; obligations: well-formed clause lists give exactly the mode an independent oracle of the documented grammar computes (each clause applied to the kind it targets), a malformed first clause is an error, the file-type bits are kept, a symlink is never altered, octal takes priority, no panic. (2) Kani decides MemfsEntry::set_mode / MemfsEntryOpts::mode (type bits kept or imposed for every kind and permission value), set_owner (exactly the given ids) and is_exec/is_readonly == mode() masks on Memfs, Stdfs and Vfs entries for every u32.",
+  note=MIR_TB + KANI_TB + "Outside the claim: which entries of a tree a recursive/follow/dirs/files chmod or chown visits (Memfs::_chmod/_chown walk hash maps), Stdfs's set_permissions syscall. Multi-character target segments such as 'df:' are left unconstrained (the documentation does not define them)."),
+"C18": dict(engine="mirsym", cat="model_checking", ref="§4 C18", tech="symbolic execution of the XDG lookup functions' MIR with env::var as a symbolic environment and paths as uninterpreted-function terms; z3 + cvc5",
+  text="The real MIR of user::{config_dir,cache_dir,data_dir,state_dir,runtime_dir,sys_config_dirs,sys_data_dirs,path_dirs,getrids}, sys::{home_dir,parse_paths} and Memfs/Stdfs::config_dir is executed with env::var(NAME) returning a symbolic Option per constant name, list variables split into <=3 (quick) / <=6 (thorough) segments each symbolically empty or not, exists() an arbitrary predicate and uid/gid any u32; each result is compared by the solver with an oracle table written from the XDG text (variable, default suffix, default list, precedence order).",
+  note=MIR_TB + "Strings are abstract (literal identity / symbolic id), PathBuf::from, mash, exists and str::parse::<u32> are uninterpreted; 'set' is read literally (a set-but-empty XDG_*_HOME is returned as is); vfs.config_dir is only constrained when XDG_CONFIG_HOME or HOME is set; PATH unset may be an error."),
 }
 checks = []
 for pid in sorted(claimed):
@@ -49,9 +55,9 @@ na = [dict(property_id=p["id"], reason=NA.get(p["id"], "not yet built in this re
 m = dict(version=1, setup_cmd="true",
   hooks=dict(guard="kani", enable="no hook is committed to /repo: checks copy /repo's working tree to a scratch dir and append `#[cfg(kani)] mod verif_*;` there (only `cargo kani` sets cfg(kani)); mirsym reads the nightly compiler's MIR dump of the unmodified sources",
              baseline_off_cmd="cd /repo && cargo test --workspace --no-fail-fast --offline", source_commits=[], add_only=True),
-  engines=[dict(name="kani", path="lib/e1.py", serves_properties=["C07", "C12", "C19"], kind_free_text="Kani 0.68 / CBMC 6.11 bounded model checking of in-crate harnesses (kani/*.rs) injected into a scratch copy of /repo"),
-           dict(name="mirsym", path="lib/mirsym/", serves_properties=["C12", "C13", "C14", "C16"], kind_free_text="own forking symbolic executor over rustc's textual MIR (regenerated from /repo each run) emitting SMT-LIB2 queries to z3, cross-checked with cvc5")],
+  engines=[dict(name="kani", path="lib/e1.py", serves_properties=["C07", "C11", "C12", "C13", "C19"], kind_free_text="Kani 0.68 / CBMC 6.11 bounded model checking of in-crate harnesses (kani/*.rs) injected into a scratch copy of /repo"),
+           dict(name="mirsym", path="lib/mirsym/", serves_properties=["C11", "C12", "C13", "C14", "C16", "C18"], kind_free_text="own forking symbolic executor over rustc's textual MIR (regenerated from /repo each run) emitting SMT-LIB2 queries to z3, cross-checked with cvc5")],
   checks=checks, not_applicable=na,
-  notes="Exit codes: 0 held within bounds, 1 VIOLATION (solver counterexample replayed natively), 2 inconclusive. Two genuine defects were repaired in /repo by 'fix:' commits 83b0110 and 6ea9caa (see known_findings.json)")
+  notes="Exit codes: 0 held within bounds, 1 VIOLATION (solver counterexample replayed natively), 2 inconclusive. Three genuine defects were repaired in /repo by 'fix:' commits 83b0110, 6ea9caa and e4d4767 (see known_findings.json)")
 json.dump(m, open(os.path.join(V, 'MANIFEST.json'), 'w'), indent=1)
 print("claimed", sorted(claimed), "n/a", [x["property_id"] for x in na])
